@@ -33,7 +33,8 @@ PER_CELL = 2_000        # extra steps earned per cell registered in the context 
 RULE = ('(a) formula texts: random token soups over the library\'s own lexicon (functions, brackets, separators, operators, '
         'references in every spelling, lower-case and unknown names, unknown sheets, literals, quotes, %, :, !, $), every '
         'prefix/suffix splice of valid formulas, C05-style token mutants, a fixed list of degenerate texts (=, ==, =(), =-, ="...), '
-        'nesting probes (parentheses / IF / SUM / IFERROR / mixed, depth 1..64) and operator chains up to 400 operands, each '
+        'nesting probes (parentheses / IF / SUM / IFERROR / mixed, depth 1..64), towers of 70..215 levels at top level and inside the arguments '
+        'of 26 functions/operators (members of their own), operator chains up to 400 operands, each '
         'translated on its own through the entry-point API under a step budget; (b) whole-file translation of generated '
         'workbooks (layered valid formulas incl. raising ones, every constant type openpyxl delivers: int, big int, float, bool, '
         'text with quotes/newlines/backslashes/braces/percent/5000 characters, date, datetime, time, timedelta, error text, '
@@ -352,7 +353,7 @@ def whole_book(ctx, bi):
 
 def plan(tier, seed):
     q = tier == 'quick'
-    sh = [{'kind': 'degenerate'}, {'kind': 'nest', 'max': 24 if q else 64}]
+    sh = [{'kind': 'degenerate'}] + [{'kind': 'nest', 'max': 24 if q else 64, 'part': p, 'parts': 8} for p in range(8)]
     n = 8 if q else 32
     for k in range(n):
         sh.append({'kind': 'soup', 'n': 500 if q else 4000, 'k': k})
@@ -381,11 +382,29 @@ def run_shard(shard, ctx):
             for d in sorted(set(list(range(1, 13)) + [16, 24, 32, 48, 64])):
                 if d <= shard['max'] and not (kind in ('MIX', 'LEFTIF') and d > 12):
                     items.append((nest(kind, d), f'nest:{kind}:{d:02d}'))
+        # towers beyond what Python can compile (200 nested brackets), at top level AND inside an argument of a function that
+        # gets a member of its own (sub-cell): either refused with a library exception or emitted in a form that loads
+        towers = [('PAR', 70), ('PAR', 105), ('PAR', 210), ('IF', 105), ('IF2', 110), ('NEG', 105), ('NEG', 215), ('IFERROR', 105), ('ROUND', 210)]
+        wrappers = ['{}', 'SUM({},1)', 'MAX(2,{})', 'MIN({})', 'AVERAGE({},{})', 'AND({}>0,TRUE)', 'OR(FALSE,{}>0)', 'COUNT({})', 'IFS(1>0,{})', 'IFS({}>0,1)',
+                    'VLOOKUP({},A3:B5,2)', 'VLOOKUP({},A3:B5,2,FALSE)', 'MATCH({},A3:A5,0)', 'INDEX(A3:B5,{},1)', 'IF({}>0,1,2)', 'IFERROR({},0)', 'ROUND({},0)',
+                    'LEFT("abc",{})', 'CONCATENATE("a",{})', 'SUMIF(A3:A5,">"&{})', 'COUNTIFS(A3:A5,{})', 'SUMIFS(B3:B5,A3:A5,{})', 'DATE(2024,1,{})',
+                    'SUM(MAX({},1),2)', '1+{}', '-{}', '{}%']
+        for (kind, d) in towers:
+            if d > shard['max'] * 4 and False:
+                continue
+            inner = nest(kind, d)[1:]
+            for wi, w in enumerate(wrappers):
+                items.append(('=' + w.format(*([inner] * w.count('{}'))), f'nest:tower-{kind}-in-{wi:02d}:{d:03d}'))
+        for n in (70, 98, 101, 140):
+            amp = '&'.join(['A1'] * n)
+            for wi, w in enumerate(['{}', 'SUM({},1)', 'LEFT({},3)', 'CONCATENATE({},"x")', 'COUNTIFS(A3:A5,{})', 'IFS(1>0,{})']):
+                items.append(('=' + w.format(amp), f'chain:amp-in-{wi}:{n:03d}'))
         for op in ('+', '*', '&', '-', '=', '<'):
             for n in (2, 10, 40, 60, 70, 80, 90, 100, 150, 400):
                 if op in '=<' and n > 40:
                     continue
                 items.append((chain(op, n), f'chain:{op}:{n:03d}'))
+        items = [it for i, it in enumerate(items) if i % shard.get('parts', 1) == shard.get('part', 0)]
         judge_formulas(ctx, items, 'nest')
         for t, how in items:
             d = int(how.split(':')[2])
